@@ -16,6 +16,10 @@ FUNCS = ['count', 'sum', 'coalesce', 'f_x', 'max', 'lower']
 STRS = ["'s'", "'it''s'", "'a;b'", "'-- x'", "'/* c */'", "''", "'x y'", "'END'", "'$$'"]
 NUMS = ['1', '42', '1.5', '0', '7e3']
 TYPES = ['int', 'text', 'varchar', 'numeric']
+# every spelling the lexer's JOIN rule accepts as one keyword, and the NULLS tails of an ordering (used with feat alljoins / nulls / window)
+ALL_JOINS = ['JOIN', 'LEFT JOIN', 'RIGHT JOIN', 'FULL JOIN', 'INNER JOIN', 'OUTER JOIN', 'STRAIGHT JOIN', 'LEFT OUTER JOIN', 'RIGHT OUTER JOIN', 'FULL OUTER JOIN',
+             'LEFT INNER JOIN', 'CROSS JOIN', 'NATURAL JOIN']
+ORDER_TAILS = ['NULLS FIRST', 'NULLS LAST', 'DESC NULLS LAST', 'ASC NULLS FIRST', 'DESC NULLS FIRST']
 
 
 class Lex:
@@ -89,6 +93,18 @@ class Gen:
             # block keywords of the splitter in ordinary expression syntax: SUBSTRING(x FROM 1 FOR 3), OVERLAY(… FOR …), IF(…) is lexed as a Name
             self.count('substring_for')
             return [nm(self.r.choice(['substring', 'overlay'])), pu('(', tight=True)] + self.ident() + [kw('FROM'), Lex('num', '1'), kw('FOR'), Lex('num', '3'), pu(')')]
+        if self.feat.get('window') and self.r.random() < 0.07:
+            return self.window_call(d)
+        if self.feat.get('tzcast') and self.r.random() < 0.04:
+            # `x AT TIME ZONE 'utc'` (one Keyword.TZCast lexeme), optionally aliased with AS by item()
+            self.count('tzcast')
+            return self.ident() + [Lex('tz', "AT TIME ZONE 'utc'")]
+        if self.feat.get('interval') and self.r.random() < 0.04:
+            self.count('interval')
+            return [kw('INTERVAL'), Lex('str', self.r.choice(["'1'", "'2 3:04'"])), kw(self.r.choice(['DAY', 'HOUR', 'MINUTE', 'MONTH', 'SECOND', 'YEAR']))]
+        if self.feat.get('arrayidx') and self.r.random() < 0.03:
+            self.count('arrayidx')
+            return [nm(self.r.choice(IDENT)), pu('[', tight=True), Lex('num', self.r.choice(NUMS[:2]), tight=True), pu(']', tight=True)]
         if d >= self.maxdepth or r < 0.32:
             return self.ident()
         if r < 0.47:
@@ -174,7 +190,10 @@ class Gen:
             s += [nm(self.r.choice(IDENT))]
         while self.r.random() < 0.3:
             self.count('join')
-            s += [kw(self.r.choice(['JOIN', 'LEFT JOIN', 'INNER JOIN', 'LEFT OUTER JOIN', 'CROSS JOIN']))] + self.ident() + [kw('ON')] + self.cond(d + 2)
+            jk = self.r.choice(['JOIN', 'LEFT JOIN', 'INNER JOIN', 'LEFT OUTER JOIN', 'CROSS JOIN'])
+            if self.feat.get('alljoins') and self.r.random() < 0.5:
+                jk = self.r.choice(ALL_JOINS)
+            s += [kw(jk)] + self.ident() + [kw('ON')] + self.cond(d + 2)
         if self.r.random() < 0.5:
             self.count('where')
             s += [kw('WHERE')] + self.cond(d + 1)
@@ -185,7 +204,8 @@ class Gen:
             s += [kw('HAVING')] + self.cond(d + 2)
         if self.r.random() < 0.2:
             self.count('order_by')
-            s += [kw('ORDER BY')] + self.commalist(lambda: self.ident() + ([kw(self.r.choice(['DESC', 'ASC']))] if self.r.random() < 0.5 else []), 1, 2)
+            s += [kw('ORDER BY')] + self.commalist(lambda: self.ident() + ([kw(self.r.choice(['DESC', 'ASC']))] if self.r.random() < 0.5 else []) +
+                                                   ([kw(self.r.choice(ORDER_TAILS))] if self.feat.get('nulls') and self.r.random() < 0.5 else []), 1, 2)
         if self.r.random() < 0.1:
             s += [kw('LIMIT'), Lex('num', '10')]
         if self.feat.get('sqlfor') and self.r.random() < 0.12:
@@ -219,7 +239,7 @@ class Gen:
                  if self.r.random() < 0.5 else ([pu('(')] + self.select(1) + [pu(')')] if self.feat.get('sqlfor') and self.r.random() < 0.5 else self.select(1)))
         if r < 0.92 and self.feat['ddl']:
             self.count('create_table')
-            cols = self.commalist(lambda: [nm(self.r.choice(IDENT)), nm(self.r.choice(TYPES))] +
+            cols = self.commalist(lambda: [nm(self.r.choice(IDENT))] + (self.coltype() if self.feat.get('typeargs') else [nm(self.r.choice(TYPES))]) +
                                   ([kw('NOT NULL')] if self.r.random() < 0.3 else []) +
                                   ([kw('PRIMARY KEY')] if self.r.random() < 0.2 else []), 1, 3)
             return [kw(self.r.choice(['CREATE', 'CREATE OR REPLACE'])), kw(self.r.choice(['TABLE', 'VIEW']))] + self.ident() + [pu('(')] + cols + [pu(')')]
@@ -227,6 +247,29 @@ class Gen:
             self.count('cte')
             return [kw('WITH'), nm(self.r.choice(IDENT)), kw('AS'), pu('(')] + self.select(1) + [pu(')')] + self.select(1)
         return self.select()
+
+    # -- features added for C11/C13 (off by default): window calls, parametrised column types
+    def window_call(self, d):
+        """f(x) OVER (PARTITION BY … ORDER BY … [DESC] [NULLS LAST]) or f(x) OVER w"""
+        self.count('window')
+        out = [nm(self.r.choice(['sum', 'row_number', 'rank', 'avg'])), pu('(', tight=True)] + (self.ident() if self.r.random() < 0.7 else []) + [pu(')'), kw('OVER')]
+        if self.r.random() < 0.2:
+            return out + [nm('w')]
+        out += [pu('(')]
+        if self.r.random() < 0.6:
+            out += [kw('PARTITION BY')] + self.commalist(self.ident, 1, 2)
+        if self.r.random() < 0.7:
+            out += [kw('ORDER BY')] + self.ident() + ([kw(self.r.choice(['DESC', 'ASC'] + ORDER_TAILS))] if self.r.random() < 0.6 else [])
+        return out + [pu(')')]
+
+    def coltype(self):
+        r = self.r.random()
+        if r < 0.4:
+            return [nm(self.r.choice(TYPES))]
+        if r < 0.7:
+            return [nm(self.r.choice(['varchar', 'numeric', 'char', 'decimal'])), pu('(', tight=self.r.random() < 0.5), Lex('num', '10')] + \
+                ([pu(','), Lex('num', '2')] if self.r.random() < 0.3 else []) + [pu(')')]
+        return [kw(self.r.choice(['DOUBLE PRECISION', 'CHARACTER VARYING', 'TIMESTAMP']))]
 
     # -- procedural blocks (C17)
     def case_expr(self, depth):
